@@ -1,11 +1,11 @@
 -------------------------------- MODULE Idna --------------------------------
 (***************************************************************************)
 (* Domain to ASCII (URL Standard 3.3) on top of UTS #46.                    *)
-(* Stage 1 (this file, for now): the all-ASCII rule of the URL Standard --  *)
-(* an all-ASCII domain is simply lower-cased -- and well-formedness of the  *)
-(* UTF-8.  Non-ASCII domains are delegated to IdnaFragment (UTS #46 over a  *)
-(* hand-written Unicode fragment) when every code point lies inside the     *)
-(* fragment, and are "unspecified" (skip, never fail) otherwise.            *)
+(* This file: the all-ASCII rule of the URL Standard -- an all-ASCII domain  *)
+(* is simply lower-cased -- and well-formedness of the UTF-8.  Non-ASCII    *)
+(* domains are delegated to IdnaFragment (UTS #46 over a hand-written       *)
+(* Unicode fragment) and are "unspecified" (skip, never fail) when a code   *)
+(* point lies outside the fragment or the fragment cannot decide.           *)
 (***************************************************************************)
 EXTENDS Bytes, IdnaFragment
 
@@ -16,5 +16,5 @@ DomainToAscii(decoded) ==
   ELSE IF ~ValidUtf8(decoded) THEN TA(FALSE, FALSE, <<>>)   \* U+FFFD is disallowed
   ELSE LET cps == Utf8Decode(decoded) IN
        IF ~InFragment(cps) THEN TA(FALSE, TRUE, <<>>)
-       ELSE LET r == FragToAscii(cps) IN TA(r.ok, FALSE, r.s)
+       ELSE LET r == FragToAscii(cps) IN TA(r.ok, r.unspec, r.s)
 =============================================================================
